@@ -28,7 +28,8 @@ type mistake struct {
 
 var classes = []string{
 	"non-function-target", "cb-too-few-params", "cb-too-many-params", "cb-too-few-results", "cb-too-many-results", "cb-param-size", "cb-result-size",
-	"when-too-few", "ret-too-few", "ret-size", "unknown-method", "unknown-symbol", "unknown-struct-method-by-name",
+	"when-too-few", "ret-too-few", "ret-size", "returns-size", "returns-too-few", "method-ret-size", "method-returns-size", "method-when-too-few",
+	"iface-ret-size", "iface-returns-size", "unknown-method", "unknown-symbol", "unknown-struct-method-by-name",
 	"iface-non-pointer", "iface-ptr-to-non-iface", "iface-cb-no-ctx", "iface-cb-too-few", "iface-cb-too-many", "iface-cb-results", "iface-unknown-method",
 }
 
@@ -59,6 +60,25 @@ func outs(t reflect.Type) []reflect.Type {
 		r[i] = t.Out(i)
 	}
 	return r
+}
+
+func max1(n int) int {
+	if n < 1 {
+		return 1
+	}
+	return n
+}
+
+// valsOf builds result values for function type t; the value at position bad (if >= 0) has the wrong size
+func valsOf(t reflect.Type, bad int) []interface{} {
+	vals := make([]interface{}, t.NumOut())
+	for i := range vals {
+		vals[i] = vkit.Value(t.Out(i), uint64(i+1)).Interface()
+		if i == bad {
+			vals[i] = reflect.Zero(otherSize(t.Out(i))).Interface()
+		}
+	}
+	return vals
 }
 
 func mkFunc(in, out []reflect.Type, variadic bool) interface{} {
@@ -107,6 +127,7 @@ func runMistake(ci interface{}, s *vkit.Stats) error {
 	rec := &corpus.Rec{}
 	var do func()
 	applicable := true
+	var methodBefore *corpus.Method
 	switch c.Class {
 	case "non-function-target":
 		targets := []interface{}{42, "not a function", struct{}{}, 3.5, []int{1}, nil, &rec}
@@ -198,6 +219,101 @@ func runMistake(ci interface{}, s *vkit.Stats) error {
 		}
 		vals[k] = reflect.Zero(otherSize(ft.Out(k))).Interface()
 		do = func() { b.Func(fn.Fn).Return(vals...) }
+	case "returns-size", "returns-too-few":
+		// a sequence given to Returns(...) whose element j is ill-formed; the elements before it are fine
+		if ft.NumOut() == 0 || (c.Class == "returns-too-few" && ft.NumOut() < 2) {
+			applicable = false
+			break
+		}
+		n := 1 + c.K%4
+		j := c.Pos % n
+		var seq []interface{}
+		for e := 0; e < n; e++ {
+			vals := make([]interface{}, ft.NumOut())
+			for i := range vals {
+				vals[i] = vkit.Value(ft.Out(i), uint64(i+e+1)).Interface()
+			}
+			if e == j {
+				if c.Class == "returns-size" {
+					k := c.Pos % ft.NumOut()
+					if ft.Out(k).Kind() == reflect.Interface {
+						applicable = false
+					}
+					vals[k] = reflect.Zero(otherSize(ft.Out(k))).Interface()
+				} else {
+					vals = vals[:len(vals)-1]
+				}
+			}
+			if ft.NumOut() == 1 && len(vals) == 1 {
+				seq = append(seq, vals[0])
+			} else {
+				seq = append(seq, vals)
+			}
+		}
+		if c.Class == "returns-too-few" && ft.NumOut() == 2 {
+			// a one-element tuple for a two-result function is written as []interface{}{v}
+		}
+		do = func() { b.Func(fn.Fn).Returns(seq...) }
+	case "method-ret-size", "method-returns-size", "method-when-too-few":
+		t := corpus.Types[c.Fn%8] // exported types
+		var m *corpus.Method
+		for _, cand := range t.Methods {
+			if cand.Exported {
+				m = cand
+				if c.K%2 == 0 {
+					break
+				}
+			}
+		}
+		mt := m.FuncType
+		argv := t.ValArg
+		if m.Ptr {
+			argv = t.PtrArg
+		}
+		methodBefore = m
+		switch c.Class {
+		case "method-when-too-few":
+			if mt.NumIn() < 3 {
+				applicable = false
+				break
+			}
+			do = func() { b.Struct(argv).Method(m.Name).When(vkit.Value(mt.In(1), 1).Interface()).Return(valsOf(mt, -1)...) }
+		case "method-ret-size":
+			k := c.Pos % mt.NumOut()
+			if mt.Out(k).Kind() == reflect.Interface {
+				applicable = false
+				break
+			}
+			do = func() { b.Struct(argv).Method(m.Name).Return(valsOf(mt, k)...) }
+		default:
+			k := c.Pos % mt.NumOut()
+			if mt.Out(k).Kind() == reflect.Interface {
+				applicable = false
+				break
+			}
+			good, bad := valsOf(mt, -1), valsOf(mt, k)
+			var e0, e1 interface{} = good, bad
+			if mt.NumOut() == 1 {
+				e0, e1 = good[0], bad[0]
+			}
+			do = func() { b.Struct(argv).Method(m.Name).Returns(e0, e1) }
+		}
+	case "iface-ret-size", "iface-returns-size":
+		k := c.K % max1(cbt.NumOut())
+		if cbt.NumOut() == 0 || cbt.Out(k).Kind() == reflect.Interface {
+			applicable = false
+			break
+		}
+		good, bad := valsOf(cbt, -1), valsOf(cbt, k)
+		if c.Class == "iface-ret-size" {
+			do = func() { b.Interface(ii.Var(0)).Method(im.Name).As(im.As).Return(bad...) }
+		} else {
+			var e0, e1 interface{} = good, bad
+			if cbt.NumOut() == 1 {
+				e0, e1 = good[0], bad[0]
+			}
+			do = func() { b.Interface(ii.Var(0)).Method(im.Name).As(im.As).Returns(e0, e1) }
+		}
 	case "unknown-method":
 		t := corpus.Types[c.Fn%len(corpus.Types)]
 		name := []string{"Nope", "Ge", "GetXYZW", "get ", ""}[c.K%5]
@@ -300,6 +416,16 @@ func runMistake(ci interface{}, s *vkit.Stats) error {
 	}
 	if corpus.OrigRan[fn.ID]-before != 1 {
 		return fmt.Errorf("%s: after the rejected call the target no longer runs its original body (left mocked)", what)
+	}
+	if methodBefore != nil {
+		ran := *methodBefore.Ran
+		margs := make([]reflect.Value, methodBefore.FuncType.NumIn()-1)
+		for i := range margs {
+			margs[i] = vkit.Value(methodBefore.FuncType.In(i+1), uint64(i)+1)
+		}
+		if pv := guard(func() { methodBefore.Call(0, margs) }); pv != nil || *methodBefore.Ran-ran != 1 {
+			return fmt.Errorf("%s: after the rejected call method %s.%s no longer runs its original body (panic %v)", what, methodBefore.Type.Name, methodBefore.Name, pv)
+		}
 	}
 	if strings.HasPrefix(c.Class, "iface-") && ii.Words(0) != wordsBefore {
 		return fmt.Errorf("%s: rejected, but the interface variable was changed", what)
